@@ -128,5 +128,27 @@ class C15(Prop):
     def nontrivial(self, case):
         return "multi-block-stem" in case.flags or "anchored-rule-fired" in case.flags
 
+    # scale probe: stores well beyond 64 KiB (mmap allocation granularity multiples), compared block by block
+    def extra_checks(self, ctx, tier, seed, shard, nshards):
+        if shard != 2 % nshards:
+            return
+        from ..scale import big_ops
+        from ..core import Case
+        case = Case(self, ctx, Config(backend="file", default_rule="domain"), None)
+        try:
+            twin = case.state["twin"]
+            for op in big_ops(320 if tier == "quick" else 700):
+                out = case.idx.apply(op)
+                out2 = twin.apply(op)
+                case.led.apply(op, out)
+                case.ops.append(op)
+                compare_outcomes(ctx, case, op, out, out2, "on-disk", "in-memory")
+            self.compare(case, None)
+            a1, b1 = case.idx.raw()
+            ctx.extra["scale_probe_trie_bytes"] += len(a1)
+            ctx.extra["scale_probe_link_bytes"] += len(b1)
+        finally:
+            case.abort()
+
 
 PROP = C15()
